@@ -11,7 +11,8 @@ model's function.  The file is regenerated from the current source (SRC, i.e. $N
 run; anything outside the subset below raises Untranslatable (exit status 2).
 
 GENERAL RULES (py2coq.Fn's continuation style: the term of a statement contains the term of what follows it)
-  x = e / x: T = e / x += e            let x := e in ...            (x = A if C else B  is first rewritten to if/else)
+  x = e / x: T = e / x += e            let x := e in ...            (x = A if C else B  is first rewritten to if/else;
+                                       a local keeps one type, except that an N may be stored in a Z local)
   self.f = e / self.f += e             let s__ := <setter f> s__ e in ...                        (table ATTRS)
   a, b = X.split(SEP, 1)               match break_sub SEP X with Some (a, b) => ... | None => <escape ValueError>
   if / elif / else, return, pass, break, continue; `and` / `or` / `not` short-circuit (an operand that can raise is
